@@ -503,6 +503,55 @@ func (t *textGen) arbitrary(maxLen, n int) {
 		}
 	}
 	rec("", 0)
+	// skeletons: the delimiters of each printed form in place, every part between them drawn from a small set
+	// of degenerate fillings (empty, a lone quote, a half-quoted value, ...), all combinations
+	{
+		tm := "2006-01-02T15:04:05Z"
+		ids := []string{"", "p", `"`, " "}
+		anchors := []string{"", `"`, `""`, `"` + tm + `"`, `"` + tm, tm + `"`, tm, `"x"`, "x", " ", `" "`, `"` + tm + `" `, "]", `"]`}
+		opens := []string{`"@[`, `"@`, `"[`, `@[`}
+		closes := []string{"]", "", "]]", `"]`}
+		for _, id := range ids {
+			for _, op := range opens {
+				for _, a := range anchors {
+					for _, cl := range closes {
+						s := `"` + id + op + a + cl
+						for _, k := range []string{"pred", "obj", "objb"} {
+							t.parseLine(k, s, "skeleton")
+						}
+						t.parseLine("triple", "/u<a>\t"+s+"\t/u<b>", "skeleton")
+					}
+				}
+			}
+		}
+		vals := []string{"", "1", " 1", "1 ", `"`, "true", " ", "[1 2]", "[", "[]", "1e400", "-", "9223372036854775808"}
+		tys := []string{"", "bool", "int64", "float64", "text", "blob", "int64 ", " int64", "x", "int", "text\"", "blob]"}
+		seps := []string{`"^^type:`, `"^^type`, `"^type:`, `^^type:`, `"^^`}
+		for _, v := range vals {
+			for _, sp := range seps {
+				for _, ty := range tys {
+					s := `"` + v + sp + ty
+					for _, k := range []string{"lit", "litb", "obj", "objb"} {
+						t.parseLine(k, s, "skeleton")
+					}
+				}
+			}
+		}
+		ntys := []string{"", "/", "/t", "t", "/t/", "/t/u", "//", "/ t", "_", "/_"}
+		nids := []string{"", "a", "<", ">", " ", "a>", "<a", `\`}
+		for _, ty := range ntys {
+			for _, o := range []string{"<", "", "<<"} {
+				for _, id := range nids {
+					for _, c := range []string{">", "", ">>"} {
+						s := ty + o + id + c
+						for _, k := range []string{"node", "obj"} {
+							t.parseLine(k, s, "skeleton")
+						}
+					}
+				}
+			}
+		}
+	}
 	// mutations of valid texts and random strings
 	rich := []string{`"`, `"`, "@[", "]", "<", ">", "/", "_:", "^^type:", "text", "int64", "blob", "float64", "bool", " ", "\t", "a", "1", "-", ".", "e", "T", "Z", ":",
 		"2006-01-02T15:04:05Z", `\`, "é", "\x00", "\xff", "[", "true", "+Inf", "] /", `] "`, `> "`, ">\t\"", "]\t/", `"p"@[]`, "/u<a>", `"1"^^type:int64`}
